@@ -122,6 +122,12 @@ def run(F, R):
     # token or nothing ready advances nothing (C03.E1 / E2)
     from .C03 import pop_rule
     pop_rule(F, R, 'P17')
+    # P18: unshare only for a matched completion (C03.E15); P19: descriptor flags written fresh on every reuse, so the release path
+    # takes the branch of the chain actually submitted (C01.F1)
+    from .C03 import release_rule
+    release_rule(F, R, 'P18')
+    from .C01 import share_fn_rule
+    guard(R, 'P19', 'share-fn', lambda: share_fn_rule(F, R, 'P19'))
     p14_pinned_buffers(F, R, M, _roles)
     p15_owned_buffers_parked(F, R, M, _roles)
     # P13: a buffer is unshared in the direction it was shared in: the block driver's completion calls present the same
